@@ -1405,6 +1405,19 @@ class Interp:
     # ---------------------------------------------------------------- calls
     def e_Call(self, e, env):
         fnode = e.func
+        if isinstance(fnode, ast.Attribute) and fnode.attr == "astype":
+            # mask.astype(float) / (a < b).astype(int): 1 where true, 0 where false (a decided comparison: the decided value);
+            # array.astype(float): the same numbers (dtypes are not modelled here)
+            try:
+                v0 = self.eval(fnode.value, env)
+            except Unsupported:
+                v0 = None
+            if isinstance(v0, bool):
+                return Rat.const(1 if v0 else 0)
+            if isinstance(v0, NMask):
+                return NArr([(Rat.const(1 if t else 0), n) for t, n in v0.segs])
+            if isinstance(v0, (NArr, RLE, RLECat, Rat)):
+                return v0
         if isinstance(fnode, ast.Attribute) and fnode.attr in ("all", "any") and not e.args and not e.keywords:
             # (a <= b).all() where the comparison was decided on the path: the decided truth value
             try:
